@@ -4,7 +4,7 @@ import ast
 
 from ..program import AnalysisError, walk_local, dotted
 from ..analysis import Spec, src, const_value
-from ..rules import (flow_canon, canon, template_sites, GWF, EXC, mpt, need_func, stores_to, raise_class,
+from ..rules import (match_guard_table, literal_text, locals_bound_to, flow_canon, canon, template_sites, GWF, EXC, mpt, need_func, stores_to, raise_class,
                      parent_map, kw, is_const, strip_wrappers)
 from . import common, gitcmds
 from .c03 import bind_args
@@ -398,8 +398,18 @@ def _site_publishes(an, f, call):
 def queue_validation(prog, an, rep):
     R = 'C02.MPT.queue-validation'
     f = need_func(an, GWF + '._handle_pull_request')
+
+    def collection(fn):
+        # the queue collection: the local(s) bound to
+        # build_queue_collection(job)
+        names = locals_bound_to(fn, pred=lambda t: t.split('(')[0].endswith(
+            'build_queue_collection'))
+        if not names:
+            raise AnalysisError('anchor-missing the queue collection in ' +
+                                fn.qname)
+        return r'^(%s)$' % '|'.join(names)
     mpt(an, rep, R, f, Spec.func(Q + '.add_to_queue'),
-        [Spec.method('validate', r'^queues$')], depth=0,
+        [Spec.method('validate', collection(f))], depth=0,
         why='half-written queues are refused before adding to them')
     c = an.cfg(f)
     hs = [n for n in c.nodes.values() if n.kind == 'handler' and
@@ -416,7 +426,7 @@ def queue_validation(prog, an, rep):
                   'handled as %s' % (first,))
     g = need_func(an, Q + '.handle_merge_queues')
     mpt(an, rep, R, g, Spec.func(Q + '.merge_queues'),
-        [Spec.method('validate', r'^queues$')], depth=0)
+        [Spec.method('validate', collection(g))], depth=0)
 
 
 def fresh_clone(prog, an, rep):
@@ -428,6 +438,12 @@ def fresh_clone(prog, an, rep):
 # every error class with the chain of conditions it is reported under, read
 # off the pinned tree and confirmed against the docstring of validate().
 # ('then' / 'else' = arm of the enclosing if, 'loop' = enclosing iteration).
+# What each queue-validation error is reported under, read off the pinned
+# tree and confirmed against the source: ('then' / 'else', test) for a test,
+# ('loop', iterable) for a loop.  The locals of the pinned tree are PATTERN
+# VARIABLES (sa/rules.py: match_guard_table): an entry matches whatever the
+# current code calls them - or writes in their place - as long as one meaning
+# fits every entry; the way round a test is written does not matter either.
 HORIZONTAL = [
     ('MasterQueueMissing', (('then', 'not masterq'),)),
     ('MasterQueueLateVsDev',
@@ -466,6 +482,12 @@ HORIZONTAL = [
      (('else', 'not masterq'),
       ('then', 'not nextq.includes_commit(masterq.dst_branch)'))),
 ]
+HORIZONTAL_VARS = {'masterq', 'greatest_intq', 'nextq', 'intq'}
+# what the variables that stand for one expression must stand for
+HORIZONTAL_DEFS = {
+    'masterq': 'self._queues[version][QueueBranch]',
+    'greatest_intq': 'self._queues[version][QueueIntegrationBranch][0]',
+}
 VERTICAL = [
     ('MasterQueueMissing',
      (('loop', 'versions'), ('then', 'version not in stack'),
@@ -476,17 +498,24 @@ VERTICAL = [
      (('then', 'last_version in stack'),
       ('loop', 'stack[last_version][QueueIntegrationBranch]'),
       ('loop', 'reversed(versions[:-1])'),
-      ('then', 'stack[version][QueueIntegrationBranch] and '
-               'stack[version][QueueIntegrationBranch][0].pr_id == pr'),
+      ('then', 'stack[version2][QueueIntegrationBranch] and '
+               'stack[version2][QueueIntegrationBranch][0].pr_id == pr'),
       ('then', 'not next_vqint.includes_commit(vqint)'))),
     ('QueueInconsistentPullRequestsOrder',
      (('then', 'last_version in stack'), ('then', 'prs'))),
     ('QueueInconsistentPullRequestsOrder',
      (('then', 'last_version in stack'), ('else', 'prs'),
       ('loop', 'versions'),
-      ('then', 'version in stack and '
-               'stack[version][QueueIntegrationBranch]'))),
+      ('then', 'version3 in stack and '
+               'stack[version3][QueueIntegrationBranch]'))),
 ]
+# (the pinned tree uses one name, `version`, for three loop variables: one
+# variable per loop here, so that renaming one of them is nothing)
+VERTICAL_VARS = {'version', 'version2', 'version3', 'has_queues',
+                 'hf_detected', 'last_version', 'pr', 'vqint', 'next_vqint',
+                 'prs'}
+VERTICAL_DEFS = {'last_version': 'versions[-1]',
+                 'prs': 'self._extract_pr_ids(stack)'}
 
 
 def _yield_guards(f):
@@ -500,13 +529,12 @@ def _yield_guards(f):
         while x in pm:
             par = pm[x]
             if isinstance(par, ast.If) and x is not par.test:
-                arm = 'then' if any(
-                    x is s_ or any(y is x for y in ast.walk(s_))
-                    for s_ in par.body) else 'else'
-                g.append((arm, canon(f, par.test)))
+                arm = any(x is s_ or any(y is x for y in ast.walk(s_))
+                          for s_ in par.body)
+                g.append(('then' if arm else 'else', par.test))
             elif isinstance(par, (ast.For, ast.While)):
-                g.append(('loop', canon(
-                    f, par.iter if isinstance(par, ast.For) else par.test)))
+                g.append(('loop', par.iter if isinstance(par, ast.For)
+                          else par.test))
             x = par
         cls_ = src(n.value.func).rpartition('.')[2] \
             if isinstance(n.value, ast.Call) else src(n.value)
@@ -518,33 +546,34 @@ def queue_validation_guards(prog, an, rep):
     from collections import Counter
     R = 'C02.REG.queue-validation-guards'
     BRQ = GWF + '.branches.QueueCollection'
-    for meth, table in (('_horizontal_validation', HORIZONTAL),
-                        ('_vertical_validation', VERTICAL)):
+    for meth, table, variables, defs in (
+            ('_horizontal_validation', HORIZONTAL, HORIZONTAL_VARS,
+             HORIZONTAL_DEFS),
+            ('_vertical_validation', VERTICAL, VERTICAL_VARS,
+             VERTICAL_DEFS)):
         f = need_func(an, BRQ + '.' + meth)
         found = _yield_guards(f)
-        have = Counter((c_, g) for c_, g, _ in found)
-        # the table is written with the locals of the pinned tree; both
-        # sides are compared with locals replaced by what they stand for
-
-        def ctext(t):
-            try:
-                return canon(f, ast.parse(t, mode='eval').body)
-            except SyntaxError:
-                return t
-        table = [(c_, tuple((arm, ctext(t)) for arm, t in g))
-                 for c_, g in table]
+        env, missing = match_guard_table(f, table, found, variables)
         for c_, g in table:
             rep.evaluated()
-            ok = have.get((c_, g), 0) > 0
-            if ok:
-                have[(c_, g)] -= 1
-            near = [gg for cc, gg, _ in found if cc == c_]
-            rep.check(ok, R, '%s: %s reported when %s' % (
+            near = [tuple((a, src(t)) for a, t in gg)
+                    for cc, gg, _ in found if cc == c_]
+            rep.check((c_, g) not in missing, R, '%s: %s reported when %s' % (
                 f.qname, c_, ' / '.join('%s[%s]' % (a, t[:45])
                                         for a, t in g)), f.where(),
                 'the queue validation no longer reports %s under the '
                 'recorded conditions (now: %s): a partially written queue '
                 'can pass validation' % (c_, near[:2]))
+        for var, text in defs.items():
+            got = env.get(var)
+            if got is not None and got.isidentifier() and \
+                    got not in f.params:
+                got = canon(f, ast.Name(id=got, ctx=ast.Load()), alpha=False)
+            rep.evaluated()
+            rep.check(got is None or got == text, R, '%s: what the pinned '
+                      'tree calls %s is %s' % (f.qname, var, text),
+                      f.where(), 'the conditions of the queue validation '
+                      'are now tested on %s instead of %s' % (got, text))
     v = need_func(an, BRQ + '.validate')
     c = an.cfg(v)
     calls = {src(x.func): x for x in prog.calls_in(v)
